@@ -377,9 +377,19 @@ theorem selectTransitions_sound (m : Machine) (cfg : List Path) (env : GEnv) (ev
     · simp at h1
     · exact ⟨h1, leaf, mem_leavesSorted hleaf, hp⟩
 
-/-- machine-level hypothesis: every declared transition is target-less or has a resolvable plain target -/
+/-- machine-level hypothesis: every declared transition is target-less, has a resolvable plain target,
+    or targets the root -/
 def TargetsOK (m : Machine) : Prop :=
   ∀ (p : Path) (d : StateDef) (t : Trans), m.defAt p = some d → t ∈ allTrans d → CandOK m ⟨p, t⟩
+
+/-- the stricter machine-level hypothesis: no transition targets the root either -/
+def TargetsPlain (m : Machine) : Prop :=
+  ∀ (p : Path) (d : StateDef) (t : Trans), m.defAt p = some d → t ∈ allTrans d → CandPlain m ⟨p, t⟩
+
+theorem selSoundPlain_of_targetsPlain (m : Machine) (h : TargetsPlain m) : SelSoundPlain m := by
+  intro cfg env ev sel _ hs c hc
+  obtain ⟨⟨d, hd, ht⟩, hq⟩ := selectTransitions_sound m cfg env ev sel hs c hc
+  exact ⟨h c.src d c.t hd ht, hq⟩
 
 theorem selSound_of_targetsOK (m : Machine) (h : TargetsOK m) : SelSound m := by
   intro cfg env ev sel _ hs c hc
